@@ -14,10 +14,9 @@ CONSTANTS
   DialFails = FALSE
   SfScripted = TRUE
   EnvLite = FALSE
-  AsIs_Spin = FALSE
   AsIs_SharedConfig = FALSE
   Mut = "none"
 SPECIFICATION Spec
-INVARIANTS TypeOK CopyLaw SocksClosedOnce SfClosedOnce ReplyLaw ConfigIsolation ConfigSeenWhenDue LoopEndsOnlyOnPerm LnClosedByLoop NoSpin NoLeak NoStuck
+INVARIANTS TypeOK CopyLaw SocksClosedOnce SfClosedOnce ReplyLaw ConfigIsolation ConfigSeenWhenDue LoopEndsOnlyOnPerm LnClosedByLoop NoLeak NoStuck
 PROPERTIES HandlersLeaveLoopAlone ShutdownReachesAll HandlerEnds Replied LoopEnds
 CHECK_DEADLOCK FALSE
